@@ -20,6 +20,8 @@ def register(reg):
         ensures=[f'ctx.states.state_stack == old_ctx.states.state_stack[:-1] + [out_frame(f, {OTOP})]',
                  f'out_ok(f, {OTOP})', f'result == out_ret(f, {OTOP})',
                  f'spec_same_text({OTOP}, {TOP})',
+                 # a parse function that succeeds never moves backwards in the text (what the termination measures rest on)
+                 f'{TOP}.cursor.pos >= {OTOP}.cursor.pos',
                  f'{TOP}.cutseen == ({OTOP}.cutseen or out_cut(f, {OTOP}))'],
         raises={'FailedParse': [f'ctx.states.state_stack == old_ctx.states.state_stack[:-1] + [out_fail_frame(f, {OTOP})]',
                                 f'not out_ok(f, {OTOP})', f'spec_same_text({OTOP}, {TOP})',
